@@ -199,9 +199,11 @@ def compare_text(exp, cues, res, fmt, grouped):
   # cues and lines without any visible character (tags only, e.g. "<i>" around a line break) carry no text: ignored
   cues = [c for c in cues if any(l.strip() for l in c.lines)]
   for c in cues:
-    keep = [i for i, l in enumerate(c.lines) if l != ""]
+    keep = [i for i, l in enumerate(c.lines) if l.strip() != ""]
     c.lines = [c.lines[i] for i in keep]
     c.styles = [c.styles[i] for i in keep]
+  for e in exp:
+    e.lines = [l for l in e.lines if "".join(ch.c for ch in l).strip() != ""]
   from collections import Counter
   etoks = [t for c in exp for l in c.lines for t in tokens_of("".join(ch.c for ch in l))]
   otoks = [t for c in cues for l in c.lines for t in tokens_of(l)]
